@@ -628,8 +628,9 @@ impl Fiber {
     let new_fiber = allocator.manage(new_fiber, context);
 
     unsafe {
-      // Copy argument from the parent to the child fiber
-      ptr::copy_nonoverlapping(parent_stack_top.add(1), stack_start.add(1), arg_count);
+      // Copy the callee slot and the arguments from the parent to the child fiber. For a
+      // method or an initializer the callee slot holds the receiver
+      ptr::copy_nonoverlapping(parent_stack_top, stack_start, arg_count + 1);
 
       // Effectively pop the current fibers frame so they're 'moved'
       // to the new fiber
